@@ -35,7 +35,7 @@ import deep.logging
 from deep.api.tracepoint.eventsnapshot import WATCH_SOURCE_CAPTURE
 from deep.logging import logging
 from deep.api.tracepoint import WatchResult, Variable
-from deep.processor.variable_set_processor import VariableSetProcessor
+from deep.processor.variable_set_processor import VariableSetProcessor, VariableProcessorConfig
 from deep.utils import str2bool
 
 if TYPE_CHECKING:
@@ -58,6 +58,19 @@ class ActionContext(abc.ABC):
         self._triggered = False
         self._claimed = False
         self._var_cache = None
+        self._variable_config = None
+
+    @property
+    def variable_config(self) -> VariableProcessorConfig:
+        """The limits to use when this action processes a value (a watch, a log expression, a captured result)."""
+        if self._variable_config is None:
+            return VariableProcessorConfig()
+        return self._variable_config
+
+    @variable_config.setter
+    def variable_config(self, variable_config: VariableProcessorConfig):
+        """Set the limits to use when this action processes a value."""
+        self._variable_config = variable_config
 
     @property
     def var_cache(self):
@@ -91,11 +104,14 @@ class ActionContext(abc.ABC):
         :param watch: The watch expression to evaluate.
         :return: Tuple with WatchResult, collected variables, and the log string for the expression
         """
-        var_processor = VariableSetProcessor({}, self.var_cache)
+        var_processor = VariableSetProcessor({}, self.var_cache, self.variable_config)
 
         try:
             result = self.trigger_context.evaluate_expression(watch)
             variable_id, log_str = var_processor.process_variable(watch, result)
+            if variable_id.vid is None:
+                # the variable limit of the snapshot is used up, so the value was not recorded
+                return WatchResult(source, watch, None, "max variables reached"), {}, log_str
 
             return WatchResult(source, watch, variable_id), var_processor.var_lookup, log_str
         except BaseException as e:
@@ -110,7 +126,7 @@ class ActionContext(abc.ABC):
         :param variable: the value to process
         :return: Tuple with WatchResult, collected variables, and the log string for the expression
         """
-        var_processor = VariableSetProcessor({}, self.var_cache)
+        var_processor = VariableSetProcessor({}, self.var_cache, self.variable_config)
         variable_id, log_str = var_processor.process_variable(name, variable)
 
         return WatchResult(WATCH_SOURCE_CAPTURE, name, variable_id), var_processor.var_lookup, log_str
